@@ -73,10 +73,26 @@ class _Rewrite(ASTTransformVisitor):
         self.mode = mode
 
     def visit_Un(self, node):
+        if self.mode == "equal-copy":
+            # a pass that rebuilds a node with dataclasses.replace although nothing changes: the result is a NEW node
+            # equal to the one visited, sharing its (pre-existing) children
+            return dataclasses.replace(self.generic_visit(node) if self.deep else node)
         if self.mode == "hoist":
             # a pass that removes a wrapper: the result is a node that EXISTED before the call
             return self.visit(node.arg)
         return self.generic_visit(node)
+
+    def visit_Bin(self, node):
+        if self.mode == "equal-copy":
+            return dataclasses.replace(self.generic_visit(node) if self.deep else node)
+        return self.generic_visit(node)
+
+    def visit_Tup(self, node):
+        if self.mode == "equal-copy":
+            return dataclasses.replace(self.generic_visit(node) if self.deep else node)
+        return self.generic_visit(node)
+
+    deep = False
 
     def visit_Leaf(self, node):
         if self.mode == "rewrite-then-raise":
@@ -132,9 +148,10 @@ def readonly_op(m: Machine, rng) -> str:
             _Count().visit(x)
             return "visitor"
         if k in (5, 6, 7):
-            mode = [rng.choice(["rewrite", "hoist"]), "remove", rng.choice(["raise", "rewrite-then-raise"])][k - 5]
+            mode = [rng.choice(["rewrite", "hoist", "equal-copy"]), "remove", rng.choice(["raise", "rewrite-then-raise"])][k - 5]
             try:
                 tv = _Rewrite(mode)
+                tv.deep = rng.random() < 0.5
                 tv.limit = rng.randint(1, 4)
                 tv.transform(x)
             except Exception:  # noqa
@@ -295,6 +312,32 @@ def directed_cases(rng, n):
         yield Case("directed:transform-hoists-existing", None, None, True, f"{zoo.show(top)}: visit_Un returns its (existing) argument",
                    oracle_fail=f4, sig="frame|directed|transform-hoists-existing")
         del inner, outer, top, snap4
+        # (4b) a transform whose visit methods hand back an EQUAL shallow copy (dataclasses.replace without changes) of
+        #      the node they were given, at the root / below it: the pre-existing children shared by original and copy
+        #      keep their fields, ids and registry entries
+        for deep in (False, True):
+            for shape in ("un-root", "tup-below", "bin-below"):
+                gc.collect()
+                NODE_REGISTRY.clear()
+                a, b = zoo.Leaf(v=rng.randint(0, 3)), zoo.Leaf(v=rng.randint(4, 7))
+                if shape == "un-root":
+                    top = zoo.Un(zoo.Un(a))
+                elif shape == "tup-below":
+                    top = zoo.Opt(zoo.Tup((a, b))) if hasattr(zoo, "Opt") else zoo.Un(zoo.Tup((a, b)))
+                else:
+                    top = zoo.Un(zoo.Bin(a, b))
+                snap5 = _full_snapshot([top] + [c for c, *_ in zoo.positions(top)])
+                tv = _Rewrite("equal-copy")
+                tv.deep = deep
+                try:
+                    tv.transform(top)
+                    f5 = _full_compare(snap5)
+                except Exception as e:  # noqa
+                    f5 = f"equal-copy transform raised {type(e).__name__}: {e}"[:200]
+                yield Case("directed:transform-equal-copy", None, None, True,
+                           f"{zoo.show(top)}: visit methods return dataclasses.replace(node) (deep={deep})",
+                           oracle_fail=f5, sig="frame|directed|transform-equal-copy")
+                del a, b, top, snap5
         # (5) free-form property values (annotation Any) holding nested containers: no serializer may touch them
         import copy
         from props.c14 import C14Holder
